@@ -990,7 +990,7 @@ def generate(src: Path, refused: dict[str, str] | None = None) -> dict[str, str]
         gl = "".join(f"-- guard {k}: {g}\n" for k, gs in guards.items() if SIGS[k]["mod"] == mod for g in gs)
         files[mod] = hdr + "\n".join(parts) + "\n" + gl + "end Gen\n"
     for mod, fn in (("Utils", generate_utils), ("Config", generate_config), ("Solve", generate_solve),
-                    ("Safe", generate_safe), ("MultLoops", generate_mult_loops)):
+                    ("Safe", generate_safe), ("MultLoops", generate_mult_loops), ("Pairs", generate_pairs)):
         r = attempt(mod, lambda fn=fn: fn(src))
         if r is not None:
             files[mod] = r
@@ -2100,6 +2100,83 @@ def generate_mult_loops(src: Path) -> str:
     up = _LoopTr(fns["_hochberg_stepup"]).render("hochbergStepup")
     down = _LoopTr(fns["_holm_stepdown"]).render("holmStepdown")
     return hdr + up + "\n" + down + "\nend Gen\n"
+
+
+# ------------------------------------------------------------------------------------------
+# experiment.Experiment.analyze: the two comprehensions that build the variant pairs and the
+# guard that raises  ->  Gen/Pairs.lean
+# ------------------------------------------------------------------------------------------
+def _genexp_pairs(g: ast.expr, variants: str) -> str:
+    """`tuple((a, b) for x in variants [for y in variants] if <x op y>)` as filter / map / flatMap over the list"""
+    if isinstance(g, ast.Call) and isinstance(g.func, ast.Name) and g.func.id in ("tuple", "list") and len(g.args) == 1:
+        g = g.args[0]
+    if isinstance(g, ast.ListComp):
+        g = ast.GeneratorExp(elt=g.elt, generators=g.generators)
+    if not (isinstance(g, ast.GeneratorExp) and isinstance(g.elt, ast.Tuple) and len(g.elt.elts) == 2
+            and all(isinstance(x, ast.Name) for x in g.elt.elts) and 1 <= len(g.generators) <= 2):
+        raise Unsupported(f"variant pairs: {ast.unparse(g)}")
+    a, b = (x.id for x in g.elt.elts)
+    gens = g.generators
+    for c in gens:
+        if not (isinstance(c.target, ast.Name) and isinstance(c.iter, ast.Name) and c.iter.id == variants
+                and not c.is_async):
+            raise Unsupported(f"variant pairs: clause {ast.unparse(c.target)} in {ast.unparse(c.iter)}")
+    if any(c.ifs for c in gens[:-1]) or len(gens[-1].ifs) != 1:
+        raise Unsupported("variant pairs: filters")
+    t = gens[-1].ifs[0]
+    if not (isinstance(t, ast.Compare) and len(t.ops) == 1 and type(t.ops[0]) in CMP
+            and isinstance(t.left, ast.Name) and isinstance(t.comparators[0], ast.Name)):
+        raise Unsupported(f"variant pairs: condition {ast.unparse(t)}")
+    cond = f"decide ({t.left.id} {CMP[type(t.ops[0])]} {t.comparators[0].id})"
+    inner_var = gens[-1].target.id
+    inner = f"(({variants}.filter (fun {inner_var} => {cond})).map (fun {inner_var} => ({a}, {b})))"
+    if len(gens) == 2:
+        return f"{variants}.flatMap (fun {gens[0].target.id} => {inner})"
+    return inner
+
+
+def generate_pairs(src: Path) -> str:  # noqa: C901
+    mod = ast.parse((src / "experiment.py").read_text())
+    cls = next((n for n in mod.body if isinstance(n, ast.ClassDef) and n.name == "Experiment"), None)
+    fn = next((n for n in (cls.body if cls else []) if isinstance(n, ast.FunctionDef) and n.name == "analyze"
+               and not any("overload" in ast.unparse(d) for d in n.decorator_list)), None)
+    if fn is None:
+        raise Unsupported("experiment.Experiment.analyze not found")
+    # variants = sorted(variants)
+    if not any(isinstance(n, ast.Assign) and ast.unparse(n) == "variants = sorted(variants)" for n in fn.body):
+        raise Unsupported("Experiment.analyze: `variants = sorted(variants)` not found")
+    br = [n for n in fn.body if isinstance(n, ast.If) and ast.unparse(n.test) in ("control is not None", "control is None")]
+    if len(br) != 1 or len(br[0].body) != 1 or len(br[0].orelse) != 1:
+        raise Unsupported("Experiment.analyze: the `control is not None` branch")
+    given, allp = br[0].body[0], br[0].orelse[0]
+    if ast.unparse(br[0].test) == "control is None":
+        given, allp = allp, given
+    for st in (given, allp):
+        if not (isinstance(st, ast.Assign) and len(st.targets) == 1 and isinstance(st.targets[0], ast.Name)
+                and st.targets[0].id == "variant_pairs"):
+            raise Unsupported(f"Experiment.analyze: {ast.unparse(st)[:60]}")
+    g_given = _genexp_pairs(given.value, "variants")
+    g_all = _genexp_pairs(allp.value, "variants")
+    guards = [n for n in fn.body if isinstance(n, ast.If) and len(n.body) == 1 and isinstance(n.body[0], ast.Raise)
+              and "variant_pairs" in ast.unparse(n.test)]
+    if len(guards) != 1:
+        raise Unsupported("Experiment.analyze: the guard that raises")
+    gt = ast.unparse(guards[0].test)
+    if gt != "len(variant_pairs) != 1 and (not all_variants)":
+        raise Unsupported(f"Experiment.analyze: guard {gt}")
+    if not (isinstance(guards[0].body[0].exc, ast.Call) and ast.unparse(guards[0].body[0].exc.func) == "ValueError"):
+        raise Unsupported("Experiment.analyze: the guard does not raise ValueError")
+    return ("-- GENERATED by harness/translate.py from /repo/src/tea_tasting/experiment.py — do not edit.\n"
+            "import Mathlib.Order.Basic\nimport Mathlib.Data.List.Basic\n\n"
+            "namespace Gen\n\nvariable {κ : Type} [LinearOrder κ]\n\n"
+            "-- Experiment.analyze, `control is not None`: variant_pairs over the SORTED variants\n"
+            f"def pairsGiven (variants : List κ) (control : κ) : List (κ × κ) :=\n  {g_given}\n\n"
+            "-- Experiment.analyze, `control is None`\n"
+            f"def pairsAll (variants : List κ) : List (κ × κ) :=\n  {g_all}\n\n"
+            "-- the guard: `if len(variant_pairs) != 1 and not all_variants: raise ValueError`\n"
+            "def pairsRaise (variant_pairs : List (κ × κ)) (all_variants : Bool) : Bool :=\n"
+            "  decide (variant_pairs.length ≠ 1) && !all_variants\n\n"
+            "end Gen\n")
 
 def write_if_changed(path: Path, text: str) -> bool:
     if path.exists() and path.read_text() == text:
